@@ -457,6 +457,7 @@ func execC18(sc *Scenario, env *Env) *Result {
 		res.add("reach.interleaved", 1)
 	}
 	res.Hash = out.TraceHash + fname + strings.Join(editArgs, " ")
+	res.Digest = fmt.Sprintf("%s:%d:%s", out.TraceHash, len(out.Decisions), disk.Digest())
 	viol := func(oracle, class, detail string) {
 		res.Violations = append(res.Violations, Violation{Prop: "C18", Oracle: oracle, Class: class, Detail: detail})
 	}
